@@ -111,7 +111,7 @@ class TVNorm(Functional):
         Returns:
               TV norm of `x`.
         """
-        if self.G is None or self.G.shape[1] != x.shape:
+        if self.G is None or self.G.shape[1] != x.shape or self.G.input_dtype != x.dtype:
             self.G = self._call_operator(x.shape, x.dtype)
         return self.norm(self.G @ x)
 
@@ -219,7 +219,7 @@ class TVNorm(Functional):
             kwargs: Additional arguments that may be used by derived
                 classes.
         """
-        if self.WP is None or self.WP.shape[1] != v.shape:
+        if self.WP is None or self.WP.shape[1] != v.shape or self.WP.input_dtype != v.dtype:
             self.WP, self.CWT, self.prox_ndims, self.prox_slice = self._prox_operators(
                 v.shape, v.dtype
             )
